@@ -102,6 +102,10 @@ func evictScripts() []Seq {
 		ops = append(ops, e("incr", "k1"), e("del", "k1", "k2"), e("set", "k8", "1"), e("append", "k8", "x"))
 		add("noeviction", uint64(50*n), ops...)
 	}
+	// deleting the value-less entries that SET … PX leaves behind at the limit drives the usage counter below zero:
+	// the next cache update then treats usage as over the limit (found by the thorough tier)
+	add("allkeys-lfu", 120, e("set", "k6", "xxxxxxxxxxxxxxxxxxxx"), e("set", "k1", "xxxxxxxxxxxxxxxxxxxx", "px", "100"), e("set", "k5", "5", "px", "100"),
+		e("del", "k6", "k1"), e("touch", "k5"))
 	return out
 }
 
